@@ -92,6 +92,17 @@ except ImportError:
         return ref._eval_type(globalns, localns)  # noqa
 
 
+def class_forward_ref(arg: str) -> ForwardRef:
+    # a reference for a class-level annotation given as text, where ClassVar[...] / Final[...] are allowed
+    try:
+        return ForwardRef(arg, is_argument=False, is_class=True)
+    except TypeError:
+        try:
+            return ForwardRef(arg, is_argument=False)
+        except TypeError:
+            return ForwardRef(arg)
+
+
 if sys.version_info < (3, 10):
 
     def is_union(tp: Optional[Type[Any]]) -> bool:
